@@ -28,9 +28,10 @@ Proof.
   - intros u. rewrite HT. destruct (Nat.eqb_spec u t) as [->|Hne']; cbn [refs clk x'].
     + intros _. subst c'. pw.
     + intros Hu. specialize (Hall0 u Hne'). lia.
-  - intros u. destruct (J3 s I u) as [H3|[h [Hh H3]]]; [left; exact H3|].
-    right. exists h. rewrite HT. destruct (Nat.eqb_spec h t) as [->|Hne']; cbn [refs clk x']; [|auto].
-    split; [lia|]. specialize (Hcc u). lia.
+  - intros _ u. destruct (J3 s I Hl u) as [H3|[[h [Hh H3]]|[h [Hm H3]]]]; [left; exact H3| |].
+    + right. left. exists h. rewrite HT. destruct (Nat.eqb_spec h t) as [->|Hne']; cbn [refs clk x']; [|auto].
+      split; [lia|]. specialize (Hcc u). lia.
+    + exfalso. apply (mustfree_no_refs s h t I Hm). lia.
   - intros u. rewrite HT. destruct (Nat.eqb_spec u t) as [->|Hne']; cbn [mustfree clk pend x'];
       intros Hm; [destruct (J4 s I t Hm) as (_ & H0 & _)|destruct (J4 s I u Hm) as (_ & H0 & _)]; lia.
   - intros u. rewrite HT. destruct (Nat.eqb_spec u t) as [->|Hne']; cbn [excl refs clk x'].
@@ -69,9 +70,10 @@ Proof.
   - intros u. rewrite HT. destruct (Nat.eqb_spec u t) as [->|Hne']; cbn [refs clk x'].
     + intros _. eapply cle_trans; [apply (J2 s I t Hr) | exact Hcc].
     + apply (J2 s I u).
-  - intros u. cbn [view m]. destruct (J3 s I u) as [H3|[h [Hh H3]]]; [left; exact H3|].
-    right. exists h. rewrite HT. destruct (Nat.eqb_spec h t) as [->|Hne']; cbn [refs clk x']; [|auto].
-    split; [lia|]. specialize (Hcc u). lia.
+  - intros _ u. cbn [view m]. destruct (J3 s I Hl u) as [H3|[[h [Hh H3]]|[h [Hm H3]]]]; [left; exact H3| |].
+    + right. left. exists h. rewrite HT. destruct (Nat.eqb_spec h t) as [->|Hne']; cbn [refs clk x']; [|auto].
+      split; [lia|]. specialize (Hcc u). lia.
+    + exfalso. apply (mustfree_no_refs s h t I Hm). lia.
   - intros u. rewrite HT. destruct (Nat.eqb_spec u t) as [->|Hne']; cbn [mustfree clk pend x'];
       intros Hm; [destruct (J4 s I t Hm) as (_ & H0 & _)|destruct (J4 s I u Hm) as (_ & H0 & _)]; lia.
   - intros u. rewrite HT. destruct (Nat.eqb_spec u t) as [->|Hne']; cbn [excl x']; [discriminate|].
